@@ -11,7 +11,7 @@
 EXTENDS Request, FiniteSets
 
 VARIABLES reqs,      \* round: id -> [sock, cls, v, len, answers]
-          roots,     \* round: set of <<root_id, v, indx>> seen (responses sharing a signed root)
+          roots,     \* round: set of <<root_id, v, indx, pathlen>> seen (responses sharing a signed root)
           totals     \* section: [arrivals, replies, bytes, greased, failing]
 avars == <<reqs, roots, totals>>
 
@@ -86,15 +86,21 @@ BookOn(rp) ==
        ELSE IF cands # {} THEN CHOOSE r \in cands : TRUE
        ELSE 0
 
+RECURSIVE Pow2c(_)
+Pow2c(k) == IF k = 0 THEN 1 ELSE IF k > 20 THEN 1048576 ELSE 2 * Pow2c(k - 1)
+
 \* responses that share a signed root: distinct indices, one protocol, tree large enough
 RootReasons(rp) ==
     IF rp.greased \/ rp.parse # "ok" THEN {}
-    ELSE (IF \E x \in roots : x[1] = rp.root_id /\ x[2] # rp.v THEN {"protocols_mixed_under_one_root"} ELSE {})
+    ELSE (IF \E x \in roots : x[1] = rp.root_id /\ x[4] # rp.pathlen THEN {"path_length_differs_under_one_root"} ELSE {})
+         \cup (LET idxs == {x[3] : x \in {y \in roots : y[1] = rp.root_id}} \cup {rp.indx} IN
+               IF Cardinality(idxs) > Pow2c(rp.pathlen) \/ rp.indx >= Pow2c(rp.pathlen) THEN {"path_too_short_for_batch"} ELSE {})
+         \cup (IF \E x \in roots : x[1] = rp.root_id /\ x[2] # rp.v THEN {"protocols_mixed_under_one_root"} ELSE {})
 
 Respond(rp) ==
     LET b == BookOn(rp) IN
     /\ reqs' = IF b = 0 THEN reqs ELSE [reqs EXCEPT ![b].answers = @ + 1]
-    /\ roots' = IF rp.parse = "ok" /\ ~rp.greased THEN roots \cup {<<rp.root_id, rp.v, rp.indx>>} ELSE roots
+    /\ roots' = IF rp.parse = "ok" /\ ~rp.greased THEN roots \cup {<<rp.root_id, rp.v, rp.indx, rp.pathlen>>} ELSE roots
     /\ totals' = [totals EXCEPT !.replies = @ + 1, !.bytes = @ + rp.len,
                                 !.greased = @ + (IF rp.greased THEN 1 ELSE 0),
                                 !.failing = @ + (IF rp.fails THEN 1 ELSE 0)]
